@@ -80,6 +80,17 @@ def showResult : Result → String
   | .errRead => "err"
   | .crashed => "crashed"
 
+/-- What `Run` returned and which migration its error names: `ok` | `cancelled@<i|->` (`ctx.Err()`: bare at the
+loop head / after the loop, wrapped with the index after a saved state) | `before@i` ("restoring migration
+state") | `migrate@i` ("executing migration") | `write@<i|->` ("writing intermediate state" / "writing
+migration commit batch" / the first "writing schema metadata") | `read@i` ("getting intermediate state"). -/
+def showWhy (r : Result) (idx : Option Nat) : String :=
+  let sfx := match idx with | some i => s!"@{i}" | none => "@-"
+  match r with
+  | .ok => "ok" | .crashed => "crashed"
+  | .cancelled => "cancelled" ++ sfx | .errBefore => "before" ++ sfx | .errMigrate => "migrate" ++ sfx
+  | .errWrite => "write" ++ sfx | .errRead => "read" ++ sfx
+
 /-- `ok` | `newer` | `optout:<i>f,<j>m,…` (`f`: named by its flag, `m`: `--migration-<j>`). -/
 def showOpenV (reg : Registry) : OpenV → String
   | .ok => "ok"
@@ -131,6 +142,16 @@ def parsePartial (t : String) : Option (Nat × Nat) :=
 def parseStep (tok : String) : Option BlockTx.Step :=
   if tok == "H" then some .cancelHead
   else if tok == "F" then some .crashFinal
+  else if tok == "FB" then some .crashClear
+  else if tok == "FW" then some .failClear
+  else if tok.startsWith "S" then
+    -- S<emit|*>:<bits>: a graceful pass whose unselected ranges without old entries were not written
+    match (String.ofList (tok.toList.drop 1)).splitOn ":" with
+    | [e, bits] => do
+      let e ← parseEmit e
+      let bs ← if bits == "-" then some [] else bits.toList.mapM fun c => if c == '1' then some true else if c == '0' then some false else none
+      pure (.passSkip e bs)
+    | _ => none
   else if tok.startsWith "P" then (parseEmit (String.ofList (tok.toList.drop 1))).map .pass
   else if tok.startsWith "C" || tok.startsWith "W" then
     match (String.ofList (tok.toList.drop 1)).splitOn ":" with
@@ -152,6 +173,7 @@ def parseStep (tok : String) : Option BlockTx.Step :=
 
 def showRet : BlockTx.Ret → String
   | .done => "done" | .rerun => "rerun" | .failed => "failed" | .crashed => "crashed" | .diverged => "diverged"
+  | .failedNil => "failed-nil"
 
 /-! ### state-diff-length encoding: `<present 0|1>:<diffLen>:<stored>` per block -/
 
@@ -273,6 +295,11 @@ def step (s : DrvState) (line : String) : DrvState × String :=
     match hexSV? a with
     | some a => (s, toString (SV.len a))
     | _ => (s, "bad-op")
+  | ["node.plan"] => (s, nodePlan)
+  | ["sv.string", a] =>
+    match hexSV? a with
+    | some a => (s, SV.toStr a)
+    | _ => (s, "bad-op")
   | ["sv.high", a] =>
     match hexSV? a with
     | some a => (s, toString (SV.highestBit a))
@@ -324,7 +351,7 @@ def step (s : DrvState) (line : String) : DrvState × String :=
       else match newRunnerV r s.disk with
       | .ok =>
         let (rs, res) := run s.cfg r st.env s.disk
-        ({ s with disk := rs.disk }, s!"{showResult res} {showDisk rs.disk} calls={showCalls rs.log}")
+        ({ s with disk := rs.disk }, s!"{showResult res} {showDisk rs.disk} calls={showCalls rs.log} why={showWhy res (runStopIdx s.cfg r st.env s.disk)}")
       | v => (s, s!"refused:{showOpenV r v} {showDisk s.disk}")
     | _, _, _, _, _, _ => (s, "bad-op")
   | "bt.set" :: h :: blks =>
@@ -378,7 +405,7 @@ def step (s : DrvState) (line : String) : DrvState × String :=
         if mig == "sdl" then (parseSRet ret).map sdlRet
         else if mig == "bt" then
           (if ret == "done" then some BlockTx.Ret.done else if ret == "rerun" then some .rerun
-           else if ret == "failed" then some .failed else none).map btRet
+           else if ret == "failed" then some .failed else if ret == "failed-nil" then some .failedNil else none).map btRet
         else if mig == "hs" then
           (if ret == "done" then some HS.Ret.done else if ret == "rerun" then some .rerun
            else if ret == "failed" then some .failed else none).map hsRet
